@@ -95,24 +95,8 @@ def _outside(results):
             raise ToolError("harness generated a problem outside the class of C07 (not a semilattice / not monotone): %s" % bad[:3])
 
 
-def check(seed, tier):
-    rep = Report("C07", seed, tier)
-    core.build_harness()
-    # (T) generate first (cheap), so that the JVMs below never compete with cargo
-    meta = core.gen("C07", seed, tier, shards=8)
-    dump = None
-    with cf.ThreadPoolExecutor(max_workers=2) as ex:
-        fd = ex.submit(_dump, rep, tier)
-        fm = ex.submit(_mc, rep, tier)
-        dump = fd.result()
-        fm.result()
-    os.environ["C07_CONFIGS"] = dump
-    os.environ["C07_MC_SAMPLE"] = "1500" if tier == "quick" else "40000"
-    meta_mc = core.gen("C07", seed, tier, shards=8, sub="mc")
-    results = core.validate_traces(rep, TRACE_SPEC, meta["files"] + meta_mc["files"], parallel=8, timeout=3000)
-    _outside(results)
-
-    # canaries: corrupt one recorded OUTPUT so that it certainly is a violation
+def _canaries(rep, shard):
+    """corrupt one recorded OUTPUT so that it certainly is a violation; T_C07 must reject each"""
     def final_value(evs):
         i = first_with(evs, lambda e: e["ev"] == "end" and e["panic"] == "" and len(e["vals"]) > 0)
         if i is not None:
@@ -133,7 +117,30 @@ def check(seed, tier):
                 return i
         return None
     for m in (final_value, stabilized_flag, first_input):
-        core.canary(rep, TRACE_SPEC, meta["files"][0], m, n=80, stateful=True)
+        core.canary(rep, TRACE_SPEC, shard, m, n=80, stateful=True)
+
+
+def trace_part(rep, seed, tier, dump):
+    """(T) both directions: random problems, and the problems TLC exported, on the real solver."""
+    meta = core.gen("C07", seed, tier, shards=8)
+    os.environ["C07_CONFIGS"] = dump
+    os.environ["C07_MC_SAMPLE"] = "1500" if tier == "quick" else "40000"
+    meta_mc = core.gen("C07", seed, tier, shards=8, sub="mc")
+    results = core.validate_traces(rep, TRACE_SPEC, meta["files"] + meta_mc["files"], parallel=8, timeout=3000)
+    _outside(results)
+    _canaries(rep, meta["files"][0])
+    return meta, meta_mc
+
+
+def check(seed, tier):
+    rep = Report("C07", seed, tier)
+    core.build_harness()
+    with cf.ThreadPoolExecutor(max_workers=2) as ex:
+        fd = ex.submit(_dump, rep, tier)
+        fm = ex.submit(_mc, rep, tier)
+        dump = fd.result()
+        fm.result()
+    meta, meta_mc = trace_part(rep, seed, tier, dump)
 
     rep.traces = meta["cases"] + meta_mc["cases"]
     rep.events = meta["events"] + meta_mc["events"]
@@ -162,7 +169,7 @@ def check(seed, tier):
         "the priority list is a permutation of all nodes (what Computation::new and the bottom-up/top-down constructors produce)",
         "visits of nodes without out-edges make no call-back; their number is inferred by look-ahead to the reported final worklist "
         "(both choices are schedules of the machine)",
-        "a non-terminating solver is cut off by the harness after %d call-backs and recorded as a panic" % 20000])
+        "a non-terminating solver is cut off by the harness after %d call-backs and recorded as a panic" % 5000])
 
 
 def replay(path, seed, tier):
